@@ -140,4 +140,13 @@ CHECKS['C16'] = dict(
          'for n<=2 cases (n=3 on the flat hierarchy; thorough: 3 everywhere) x {progress, junit}: action markers give execution count and order, progress lines and final OK/0 vs ERROR/4, '
          'JUnit tests / failures+errors / failure-or-error children per case; 14 invalid suites x both reporters must give exit 3, INVALID_SUITE and zero executed cases.',
     note='Found and repaired KF-C16-1 (fix: commit b63314c in /repo). Durations in reporter output are ignored.')
+CHECKS['C17'] = dict(
+    level='model_checking',
+    technique='explicit exploration of histories of polluting/observing cases inside one suite process (state = what the next case finds), differential against each case run alone; exhaustive subsets of suite/case phase contents x run mode',
+    text='A: every sequence of <=3 (thorough 4) cases over 11 kinds (cd, cd into a later-deleted dir, env set/unset in both sets, timeout, def, files in act/ and tmp/, read-only files, '
+         'ending in HARD_ERROR / INTERNAL_ERROR / FAIL after polluting) in one suite run: each case\'s first probe must find the pristine state (cwd, env populated from the default, timeout, empty act/ '
+         'and tmp/, exactly one sandbox) and its identifier must equal the standalone one (--suite S CASE; CASE beside exactly.suite). B: 64x64 subsets of phases supplied by suite and case x 3 run modes '
+         '(with a decoy exactly.suite under --suite): marker order suite-then-case (cleanup: case-then-suite), concatenated act source, sub-suite isolation. C: suite-supplied contents referencing '
+         'per-case symbols / sandbox builtins through 15 instruction kinds over all orderings of 2-3 cases.',
+    note='Virtual children as probes; Y=y0 in the caller environment; chunk-prefix replay makes cross-case leaks through module state reproducible.')
 NOT_APPLICABLE = {}
